@@ -28,6 +28,11 @@ def _run_shard(binary, wdir, idx, scripts):
             for s in todo:
                 f.write(json.dumps(s) + "\n")
         env = dict(os.environ, VERIF_SCRIPTS=inp, VERIF_TRACES=outp, GORACE="halt_on_error=1")
+        # every schedule is a legitimate execution: shards differ in the number of Ps, which changes which narrow
+        # windows Go's scheduler opens (run-to-block on one P, true parallelism on many)
+        gmp = ("", "1", "2", "4")[idx % 4]
+        if gmp and "GOMAXPROCS" not in os.environ:
+            env["GOMAXPROCS"] = gmp
         cmd = [binary, "-test.run", "^TestRun$", "-test.count", "1", "-test.timeout", "0"]
         tmo = int(os.environ.get("VERIF_SHARD_TIMEOUT", "180"))
         pr = subprocess.Popen(cmd, env=env, stdout=subprocess.PIPE, stderr=subprocess.STDOUT, text=True)
